@@ -7,7 +7,7 @@ monotonicity of a longitude series whose series 1 starts with the secular term `
 -/
 noncomputable section
 namespace Pymeeus.Refine.Vsop
-open Pymeeus Pymeeus.PR Pymeeus.GenR Pymeeus.Tables
+open Pymeeus Pymeeus.PR Pymeeus.GenR Pymeeus.GenR.Helio Pymeeus.Tables
 
 abbrev Ser := List (ℝ × ℝ × ℝ)
 
